@@ -69,7 +69,7 @@ func (x *Exec) logCall(st *State, key string, args []Val, ts []types.Type) {
 	if !x.eng.logKeys[key] {
 		return
 	}
-	n := st.comp("N!"+key, SI)
+	n := st.comp("N!"+sanitize(key), SI)
 	for j, a := range args {
 		var t types.Type
 		if j < len(ts) {
@@ -82,11 +82,11 @@ func (x *Exec) logCall(st *State, key string, args []Val, ts []types.Type) {
 		default:
 			term = st.scalar(a, t)
 		}
-		name := fmt.Sprintf("A!%s!%d", key, j)
+		name := fmt.Sprintf("A!%s!%d", sanitize(key), j)
 		arr := st.comp(name, ArrSort(SI, term.Sort))
 		st.setComp(name, Sto(arr, n, term))
 	}
-	st.setComp("N!"+key, Add(n, TInt(1)))
+	st.setComp("N!"+sanitize(key), Add(n, TInt(1)))
 }
 
 // logRet records the (scalar) result of the latest logged call of key.
@@ -95,13 +95,13 @@ func (x *Exec) logRet(st *State, key string, res Val, resT types.Type) {
 		return
 	}
 	tvs := resultTVs(res, resT)
-	n := Sub(st.comp("N!"+key, SI), TInt(1))
+	n := Sub(st.comp("N!"+sanitize(key), SI), TInt(1))
 	for j, tv := range tvs {
 		if tv.T == nil || sortOf(tv.T) == "" {
 			continue
 		}
 		term := st.scalar(tv.V, tv.T)
-		name := fmt.Sprintf("R!%s!%d", key, j)
+		name := fmt.Sprintf("R!%s!%d", sanitize(key), j)
 		arr := st.comp(name, ArrSort(SI, term.Sort))
 		st.setComp(name, Sto(arr, n, term))
 	}
@@ -416,14 +416,14 @@ func (x *Exec) evalLoc(e *Env, le Expr, cl *Clause) (out []Loc) {
 				res = append(res, mk(hn, hasSort, ref), mk(vn, ArrSort(SI, ArrSort(SI, s)), ref))
 			case "calls":
 				key := exprKey(v.Args[0])
-				res = append(res, Loc{"N!" + key, SI, nil})
+				res = append(res, Loc{"N!" + sanitize(key), SI, nil})
 				if sig := x.eng.callSigs[key]; sig != nil {
 					for j, t := range sig.types {
 						s := sortOf(t)
 						if s == "" {
 							s = SI
 						}
-						res = append(res, Loc{fmt.Sprintf("A!%s!%d", key, j), ArrSort(SI, s), nil})
+						res = append(res, Loc{fmt.Sprintf("A!%s!%d", sanitize(key), j), ArrSort(SI, s), nil})
 					}
 				}
 			case "fields":
